@@ -28,6 +28,7 @@ macro_rules! for_props {
             $m!(props::c07::C07);
             $m!(props::c08::C08);
             $m!(props::c09::C09);
+            $m!(props::c15::C15);
             $m!(props::c17::C17);
             $m!(props::c19::C19);
             $m!(props::c20::C20);
